@@ -71,6 +71,14 @@ CLAIMED = {
   text="Deductive proof on the real logging path: ScopeMetrics.__init__ uses a given trace id / logger, else a fresh id / the logger named after the scope, and builds the tag from trace id, name (when non-empty) and a fresh identifier; MetricsContext.scope passes own-else-enclosing trace id and logger to nested scopes; ScopeMetrics.log emits exactly one record to the scope's logger at the requested level with the exception attached, text = tag + message, caller's arguments unchanged, and the tag reaches a %-format only through replace('%','%%') when formatting applies (structural format safety); the eight MetricsContext.log_*/ctx.log_* functions route to the current scope with the right level or - outside any scope - to the root logger untagged, and never raise.",
   note="Trusted: T-LOG (Logger.log never raises, formats msg % args only when args is non-empty), T-FMT (%% renders as %), strings are opaque (concatenation is an uninterpreted constructor), T-CV.",
   ref="DESIGN.md 4 (C19)"),
+ "C04": dict(
+  text="Deductive proof for every state class at once (instance attributes are a symbolic name->value map, __ATTRIBUTES__ a dict of unknown size): __setattr__/__delattr__ raise AttributeError on every path and store nothing; __eq__ is true exactly for an instance of the same class (or subclass) whose attributes are all equal; __replace__/updated rebuild through the validating constructor with exactly {current attributes overridden by the named ones}, return the new instance and leave the original untouched, also when validation fails; __copy__ rebuilds from exactly the current attributes; __deepcopy__ rebuilds from the deep copies of each attribute; the container conversions produce new tuple / frozenset / read-only-view-of-a-new-dict objects that share nothing with the caller's containers and are idempotent item-wise. One clause is refuted and listed as a known finding (deepcopy raises when an attribute holds a mappingproxy): reported as KNOWN-FINDING, not counted as proved.",
+  note="Trusted: S8, S6 (reflexive ==), T-COPY (deepcopy fails exactly on values that are/contain a mappingproxy, else returns an equal value), the constructor's contract (C05). Equality of a copy with the original uses idempotence of the conversions (C04-P3, proved item-wise). Attributes annotated Any/Callable/Protocol keep user objects by reference (exempt by the statement).",
+  ref="DESIGN.md 4 (C04)"),
+ "C05": dict(
+  text="Deductive proof by structural induction over the annotation tree, one level per contract, with the argument validators as arbitrary pure partial functions (induction hypothesis): each validator closure of state/validation.py accepts exactly the values that conform to its shape (Any, None, class/protocol/enum by isinstance, Literal by same-type equality, Callable, Sequence / variadic tuple as non-str sequences, fixed tuple with exact length, Set/frozenset, Mapping, Union by first conforming alternative) and otherwise raises an Exception; accepted containers keep length, order, key association (nothing added, dropped, split or re-keyed) for sequences/sets/mappings of any size; attribute_validator selects the conversion prescribed for each of the 28 vocabulary origins, State/Protocol/Enum subclasses, and rejects anything else with TypeError; StateAttribute.validated substitutes the default for MISSING; State.__init__ (loop invariant over a dict of any size) stores validator(argument-or-default) for every attribute and fails iff some value does not conform.",
+  note="The reflective annotation resolver (state/attributes.py, StateMeta.__new__, __class_getitem__) is outside the verifier's reach: it is covered only by the BOUNDED native sweep of harness/C05_replay.py (annotation terms to depth 3, 262 terms, conforming and broken values) which is never counted as proved. Trusted: PEP 634 patterns, T-COLL, nominal isinstance, validators raise only Exceptions.",
+  ref="DESIGN.md 4 (C05), 3.11"),
 }
 
 ALL = [f"C{i:02d}" for i in range(1, 21)]
